@@ -41,7 +41,7 @@ def fpos(f):
 
 
 def listval(l):
-    return list(l)
+    return tuple(l)
 
 
 def unfold(fn, *args):
